@@ -36,6 +36,7 @@ FEATURES = [
     'fine_offgrid_gap',    # water level at half the rain step with single off-grid readings missing
     'long',
     'very_long',           # thousands of steps (chunked writes, batch sizes, quadratic loops)
+    'negative_rain',       # dry steps reported as slightly negative (gauge drift) or as a -9999 code
     'epoch_zero',          # the record starts at 1970-01-01 00:00:00 UTC (epoch 0)
     'many_stretches',      # 10-14 gaps: data-interval labels reach two digits
     'displace_exhaust',    # a displaced storm with no candidate left
@@ -310,10 +311,25 @@ def gen(rng, force=None, dyadic=None, max_segments=10):
             sthr = 0.0
         else:
             jthr = 0.0
+    if force == 'negative_rain':
+        dry = [i for i, r in enumerate(rain) if r == 0.0]
+        for i in rng.sample(dry, min(len(dry), rng.randint(1, 6))):
+            rain[i] = rng.choice([-0.01, -0.2, -9999.0, -1e-9])
+    t0 = '2021-03-01 00:00:00'
+    if force == 'epoch_zero':
+        t0 = '1970-01-01 00:00:00'
+    elif rng.random() < 0.3:
+        # the record straddles an instant at which some machine time zone changes its offset (the
+        # data are in UTC: nothing may happen there)
+        import datetime
+        instant = rng.choice(['2021-11-07 06:00:00', '2021-03-14 07:00:00', '2021-04-03 15:00:00', '2021-10-02 15:30:00'])
+        start = datetime.datetime.strptime(instant, '%Y-%m-%d %H:%M:%S') - datetime.timedelta(seconds=(len(rain) // 2) * step + rng.choice([0, 0, step // 2]))
+        if start.year > 1971:
+            t0 = start.strftime('%Y-%m-%d %H:%M:%S')
     case = {
         'kind': 'series',
         'step': step,
-        't0': '1970-01-01 00:00:00' if force == 'epoch_zero' else '2021-03-01 00:00:00',
+        't0': t0,
         'tz': 'UTC',
         'rain': rain,
         'et': 0.125,
